@@ -30,6 +30,7 @@ type RevProfile struct {
 	RacePanic     bool
 	CachePct      int
 	LatMax        int  // upper bound of latencies in ms (0 = 3000)
+	Perms         int  // forced completion-order permutations: n sampled, -1 = all m!
 	Hostile       bool // C09: structure-aware deletions and odd shapes on top
 	TimeInvariant bool // C17: no time-dependent behaviours so that only the schedule varies
 }
@@ -369,6 +370,28 @@ func GenRevScenario(t *Tape, p *RevProfile) *RevScenario {
 	}
 	for i := 0; i < p.Schedules-1; i++ {
 		sc.AltSeeds = append(sc.AltSeeds, uint32(t.Choose(1<<30)))
+	}
+	if p.Perms != 0 {
+		// forced completion orders of the concurrent per-certificate checks:
+		// all m! of them (Perms < 0) or a seeded sample of Perms
+		m := 0
+		for _, w := range sc.Worlds {
+			if len(w.Certs)-1 > m {
+				m = len(w.Certs) - 1
+			}
+		}
+		if m >= 2 {
+			f := factorial(m)
+			if p.Perms < 0 || p.Perms >= f {
+				for r := 0; r < f; r++ {
+					sc.AltSeeds = append(sc.AltSeeds, permFlag|uint32(r))
+				}
+			} else {
+				for i := 0; i < p.Perms; i++ {
+					sc.AltSeeds = append(sc.AltSeeds, permFlag|uint32(t.Choose(f)))
+				}
+			}
+		}
 	}
 	return sc
 }
